@@ -160,9 +160,14 @@ def work(shard):
            "nontrivial": 0, "samples": [], "max_states_per_game": 0}
     if shard["kind"] == "universe":
         Un = sweep.universe(shard["universe"])
-        it = (J.SCache(p, t, f) for p, t, f in Un.structures(shard["lo"], shard["hi"]))
+        if shard.get("finals") == "descending-with-repeat":
+            # several final states listed in descending order with one repeated (solving must not reorder or de-duplicate them)
+            it = (J.SCache(p, t, (sorted(f, reverse=True) + [min(f)]) if len(f) > 1 else f)
+                  for p, t, f in Un.structures(shard["lo"], shard["hi"], shard.get("stride", 1), shard.get("offset", 0)))
+        else:
+            it = (J.SCache(p, t, f) for p, t, f in Un.structures(shard["lo"], shard["hi"]))
     else:
-        fam = sweep._game_family(shard["family"], shard)
+        fam = sweep.family_slice(shard)
         it = (J.SCache(g["players"], g["transition_list"], g["final_states"]) for g in fam[shard["lo"]:shard["hi"]])
         rews = [g["rewards"] for g in fam[shard["lo"]:shard["hi"]]]
     for i, sc in enumerate(it):
@@ -244,6 +249,14 @@ def run(ctx):
         uni("U-S2d2")
         fam("U-F", max_deg=3)
     fam("U-X")
+    fam("U-E")
+    # U-T3 (several finals) with the finals written in descending order and one repeated
+    Un = sweep.universe("U-T3")
+    stride = 8 if ctx.thorough else 64
+    for a, b in par.ranges(Un.size, j * 4):
+        shards.append({"kind": "universe", "universe": "U-T3", "lo": a, "hi": b, "depth": depth, "finals": "descending-with-repeat",
+                       "stride": stride, "offset": ctx.seed % stride})
+    spaces.append({"universe": "U-T3", "size": Un.size, "fraction": "every %d-th structure" % stride, "finals": "descending order, one repeated"})
     tot = par.run_shards(work, shards, ctx.jobs)
     if not tot.get("violations") and (tot["nontrivial"] < 10 or tot["games"] < 100):
         raise par.HarnessError("C10 vacuity guard")
